@@ -5,9 +5,12 @@ import (
 	"fmt"
 	"sort"
 	"strings"
+	"sync/atomic"
+	"time"
 
 	"perkeep.org/pkg/blob"
 	"perkeep.org/pkg/index"
+	"perkeep.org/pkg/types/camtypes"
 	"perkeep.org/pkg/vsync"
 
 	"verif/hs"
@@ -207,6 +210,164 @@ func ConcurrentScenario(sigPrefix string, s BlobSet, perm []int, assign []int, k
 			in.Ix.VerifAwaitReindex()
 			if got := in.Dump(); got != want {
 				x.Fail("rows-differ|"+RowFamily(got, want), DiffDump(got, want))
+			}
+		}}
+}
+
+// ---- the index fed while it is queried ----
+
+// observe reads, under the index's read lock (as search.Handler.Query does),
+// what the index rows and the in-memory corpus say about every blob of the
+// set: one string per snapshot.
+func observe(in *Inst, corpus *index.Corpus, s BlobSet) string {
+	in.Ix.RLock()
+	defer in.Ix.RUnlock()
+	var sb strings.Builder
+	for _, b := range s.Canon {
+		have, err := in.KV.Get("have:" + b.Ref.String())
+		if err != nil {
+			have = "-"
+		}
+		_, cerr := corpus.GetBlobMeta(ctx, b.Ref)
+		_, ierr := in.Ix.GetBlobMeta(ctx, b.Ref)
+		fmt.Fprintf(&sb, "%s{have=%s corpus=%v index=%v deleted=%v/%v", b.Name, have, cerr == nil, ierr == nil, corpus.IsDeleted(b.Ref), in.Ix.IsDeleted(b.Ref))
+		if strings.HasPrefix(b.Name, "pn") {
+			cl, _ := corpus.AppendClaims(ctx, nil, b.Ref, "", "")
+			names := make([]string, 0, len(cl))
+			for _, c := range cl {
+				names = append(names, c.Type+":"+c.Attr+"="+c.Value)
+			}
+			sort.Strings(names)
+			mt, ok := corpus.PermanodeModtime(b.Ref)
+			fmt.Fprintf(&sb, " claims=%v tag=%q title=%q modtime=%v/%d", names, corpus.PermanodeAttrValue(b.Ref, "tag", time.Time{}, ""), corpus.PermanodeAttrValue(b.Ref, "title", time.Time{}, ""), ok, mt.Unix())
+		}
+		sb.WriteString("} ")
+	}
+	var pns []string
+	corpus.EnumeratePermanodesCreated(func(m camtypes.BlobMeta) bool {
+		pns = append(pns, m.Ref.String()[:12])
+		return true
+	}, true)
+	fmt.Fprintf(&sb, "created=%v", pns)
+	return sb.String()
+}
+
+// PrefixObservations runs the set sequentially in dependency order and
+// returns the snapshot after 0, 1, ..., n arrivals.
+func PrefixObservations(s BlobSet) []string {
+	in := NewInst()
+	corpus, err := in.Ix.KeepInMemory()
+	if err != nil {
+		panic(err)
+	}
+	out := []string{observe(in, corpus, s)}
+	for _, b := range s.Canon {
+		if err := in.Feed(b); err != nil {
+			panic(fmt.Sprintf("prefix run of %s: feeding %s: %v", s.Name, b.Name, err))
+		}
+		in.Ix.VerifAwaitReindex()
+		out = append(out, observe(in, corpus, s))
+	}
+	return out
+}
+
+// QueriedScenario: one goroutine feeds the set in dependency order while
+// `readers` other goroutines each take `snaps` snapshots under the read lock.
+// Every snapshot must be the snapshot of some prefix of the arrivals (a query
+// never sees a half-applied blob), successive snapshots of one reader must not
+// go back in time, a snapshot taken after k arrivals were acknowledged must
+// show at least those, and the final snapshot must be the complete one.
+func QueriedScenario(sigPrefix string, s BlobSet, readers, snaps, bound int, prefix []string) *sched.Config {
+	name := fmt.Sprintf("queried/%s/%dx%d", s.Name, readers, snaps)
+	ks := func(o string) (lo, hi int) {
+		lo, hi = -1, -1
+		for k, p := range prefix {
+			if p == o {
+				if lo < 0 {
+					lo = k
+				}
+				hi = k
+			}
+		}
+		return
+	}
+	return &sched.Config{Name: name, Bound: bound, DelayBound: DelayBound, SigPrefix: sigPrefix + s.Name,
+		Body: func(x *sched.X) {
+			in := &Inst{KV: hs.NewKV("index"), Src: hs.NewMem("src")}
+			in.Src.Hook = func(store, op string, br blob.Ref) error {
+				vsync.Point("src." + op)
+				return nil
+			}
+			in.KV.Hook = func(kv, op, key string) error {
+				vsync.Point("kv." + op)
+				return nil
+			}
+			in.Open()
+			corpus, err := in.Ix.KeepInMemory()
+			if err != nil {
+				panic(err)
+			}
+			var feedErr error
+			var acked atomic.Int32
+			x.Go("feeder", func() {
+				for _, b := range s.Canon {
+					in.Src.Put(b)
+					if _, err := in.Ix.ReceiveBlob(ctx, b.Ref, strings.NewReader(string(b.Data))); err != nil && feedErr == nil {
+						feedErr = fmt.Errorf("ReceiveBlob(%s): %v", b.Name, err)
+					}
+					acked.Add(1)
+				}
+			})
+			type snap struct {
+				obs         string
+				ackedBefore int
+			}
+			got := make([][]snap, readers)
+			for r := 0; r < readers; r++ {
+				r := r
+				x.Go(fmt.Sprintf("reader%d", r), func() {
+					for i := 0; i < snaps; i++ {
+						a := int(acked.Load())
+						got[r] = append(got[r], snap{observe(in, corpus, s), a})
+					}
+				})
+			}
+			x.Run()
+			if x.Deadlock {
+				x.Fail("deadlock", "feeding/querying did not finish: "+strings.Join(x.S.ParkedLabels(), " "))
+				return
+			}
+			if x.Horizon {
+				return
+			}
+			if feedErr != nil {
+				x.Fail("feed-error", feedErr.Error())
+				return
+			}
+			for r := range got {
+				prevLo := 0
+				for i, sn := range got[r] {
+					lo, hi := ks(sn.obs)
+					if lo < 0 {
+						x.Fail("query-saw-half-applied-state", fmt.Sprintf("reader %d snapshot %d is not the state after any prefix of the arrivals: %s", r, i, sn.obs))
+						return
+					}
+					if hi < prevLo {
+						x.Fail("query-went-back-in-time", fmt.Sprintf("reader %d snapshot %d shows the state after %d arrivals, an earlier snapshot showed at least %d", r, i, hi, prevLo))
+						return
+					}
+					if hi < sn.ackedBefore {
+						x.Fail("query-missed-acknowledged-arrival", fmt.Sprintf("reader %d snapshot %d started after %d arrivals were acknowledged but shows the state after %d: %s", r, i, sn.ackedBefore, hi, sn.obs))
+						return
+					}
+					if lo > prevLo {
+						prevLo = lo
+					}
+				}
+			}
+			in.Ix.VerifAwaitReindex()
+			if o := observe(in, corpus, s); o != prefix[len(prefix)-1] {
+				x.Fail("final-snapshot-differs", fmt.Sprintf("after all arrivals: %s\nwant: %s", o, prefix[len(prefix)-1]))
 			}
 		}}
 }
